@@ -199,6 +199,7 @@ func runC11(c *Check) {
 	c.ruleNoWholeRecordOverwrite("R9")
 	c.ruleStoredFlagsOnlyRise("R10")
 	c.ruleFlagRaisedBehindItsArgument("R11")
+	c.rulePooledBufferNotStored("R12", 8)
 	// the list helpers ProcessBlock uses to take a confirmed tx out of the unconfirmed list are part of the
 	// mechanism (the shared discipline rules run over them)
 	for _, k := range []string{"spynode.removeHash", "spynode.containsHash"} {
